@@ -2,6 +2,8 @@
 """Print the sub-agent prompt for one property (text of the property only; nothing from /verif's checks)."""
 import json, sys
 pid = sys.argv[1]
+N = int(sys.argv[2]) if len(sys.argv) > 2 else 2
+NUMS = ', '.join(str(i) for i in range(1, N + 1))
 wt = '/tmp/wt/' + pid
 p = [json.loads(l) for l in open('/verif/properties.jsonl')]
 p = [x for x in p if x['id'] == pid][0]
@@ -15,9 +17,9 @@ PROPERTY {pid}: {p['title']}
 {p['statement']}
 (Quantified over: {(p.get('quantifier') or {}).get('text','')})
 
-TASK: produce 2 independent source changes ("mutations") to the project's product code (src/, include/), each of which BREAKS this property while the project still compiles and all 46 existing tests still pass. I want subtle, realistic regressions - the kind a refactor, an "optimisation", a merge mistake or an incomplete feature would introduce - that need something specific to manifest: a particular interleaving, a crash or fault at a particular point, a multi-step sequence of operations, an unusual input or boundary value, or two cooperating sites that each look fine alone. NOT changes that ordinary use would expose at once, and not changes to tests. The two changes must differ in mechanism (different functions and/or a different clause of the property). Keep each change small (a few lines to ~30 lines).
+TASK: produce {N} independent source changes ("mutations") to the project's product code (src/, include/), each of which BREAKS this property while the project still compiles and all 46 existing tests still pass. I want subtle, realistic regressions - the kind a refactor, an "optimisation", a merge mistake or an incomplete feature would introduce - that need something specific to manifest: a particular interleaving, a crash or fault at a particular point, a multi-step sequence of operations, an unusual input or boundary value, or two cooperating sites that each look fine alone. NOT changes that ordinary use would expose at once, and not changes to tests. The changes must differ from each other in mechanism (different functions and/or a different clause of the property). Keep each change small (a few lines to ~30 lines).
 
-Deliverables, for change N in (1, 2): directory {wt}/_mut/N/ containing
+Deliverables, for change N in ({NUMS}): directory {wt}/_mut/N/ containing
  - patch.diff  : output of `git -C {wt} diff` for that change alone, applicable with `git apply` to a clean checkout of HEAD
  - demo.cpp    : a standalone demonstration program that exits 0 on the UNCHANGED tree and exits non-zero (printing what was violated) with the change applied. It is compiled with
                  g++ -std=c++20 -O1 -I{wt}/include -I{wt}/tests -I{wt} demo.cpp {wt}/_build/libephemeralnet_core.a -lpthread -o demo
